@@ -15,12 +15,21 @@ cargo nextest run --workspace --no-fail-fast --offline --test-threads 8 > $S/.su
 res_suite=$(grep -E "^\s+Summary" $S/.suite.log | sed 's/^ *//')
 failed=$(grep -E "^\s+FAIL " $S/.suite.log | awk '{print $NF}' | sort -u | tr '\n' ' ')
 if [ -n "$demo" ]; then
-  cp $demo tests/
   name=$(basename $demo .rs)
-  [ -f $S/demo_wiring.diff ] && git apply $S/demo_wiring.diff
-  cargo test --offline --test $name > $S/.demo_with.log 2>&1; res_demo_with=$?
-  git apply -R $S/patch.diff
-  cargo test --offline --test $name > $S/.demo_without.log 2>&1; res_demo_without=$?
+  if [ -f $S/demo_wiring.diff ]; then
+    # in-crate demo: the wiring diff names the module; the file goes next to the module it extends
+    target=$(grep -E "^\+\+\+ b/" $S/demo_wiring.diff | head -1 | sed 's#+++ b/##; s#\.rs$##')
+    mkdir -p $target; cp $demo $target/$name.rs
+    git apply $S/demo_wiring.diff
+    cargo test --offline --lib $name > $S/.demo_with.log 2>&1; res_demo_with=$?
+    git apply -R $S/patch.diff
+    cargo test --offline --lib $name > $S/.demo_without.log 2>&1; res_demo_without=$?
+  else
+    cp $demo tests/
+    cargo test --offline --test $name > $S/.demo_with.log 2>&1; res_demo_with=$?
+    git apply -R $S/patch.diff
+    cargo test --offline --test $name > $S/.demo_without.log 2>&1; res_demo_without=$?
+  fi
 fi
 cd /verif
 git -C /repo worktree remove --force $WT
